@@ -112,3 +112,104 @@ def sym_number(it, sem, name, whole_hi=None):
     idx = {n: i for i, n in enumerate(names)}
     e = Enum("Number", SV("isize", d), variants, names)
     return e, dict(tag=d, reg=reg, whole=whole, num=num, den=den, err=err, idx=idx)
+
+
+# ----------------------------------------------------------------------------------------------
+# Option / closures / small std helpers
+
+def mk_option(it, discr_sv, payload):
+    return Enum("Option", discr_sv, {"None": Agg("Option::None", {}), "Some": Agg("Option::Some", {"0": payload})}, ["None", "Some"])
+
+
+def opt_cases(it, v):
+    """[(pc, is_some, payload)] for an Option value with concrete or symbolic discriminant"""
+    d = v.discr.expr
+    if re.match(r"^\d+$", d):
+        return [([], d == "1", v.variants["Some"].fields["0"] if d == "1" else None)]
+    out = [(["(= %s 0)" % d], False, None)]
+    if "Some" in v.variants:
+        out.append((["(= %s 1)" % d], True, v.variants["Some"].fields["0"]))
+    return out
+
+
+def m_option_map(it, args, callee):
+    opt, clo = args
+    if not isinstance(opt, Enum):
+        raise Unsupported("Option::map on %r" % opt)
+    res = []
+    for pc, is_some, payload in opt_cases(it, opt):
+        if not is_some:
+            res.append((pc, it._mk_enum("Option", "None", []), "return", None))
+            continue
+        if isinstance(clo, Agg) and clo.ty.startswith("{closure@"):
+            f = it.closure_fn(clo)
+            for (pc2, val, kind, msg) in it.call_fn(f, [clo, payload]):
+                if kind == "panic":
+                    res.append((pc + pc2, None, "panic", msg))
+                else:
+                    res.append((pc + pc2, it._mk_enum("Option", "Some", [val]), "return", None))
+        elif isinstance(clo, Opaque) and clo.what.startswith("fnitem:"):
+            f = it.fn_item(clo.what[len("fnitem:"):])
+            for (pc2, val, kind, msg) in it.call_fn(f, [payload]):
+                if kind == "panic":
+                    res.append((pc + pc2, None, "panic", msg))
+                else:
+                    res.append((pc + pc2, it._mk_enum("Option", "Some", [val]), "return", None))
+        else:
+            raise Unsupported("Option::map with callee %r" % clo)
+    return res
+
+
+def m_option_unzip(it, args, callee):
+    opt = args[0]
+    res = []
+    for pc, is_some, payload in opt_cases(it, opt):
+        if is_some:
+            a, b = payload.fields["0"], payload.fields["1"]
+            res.append((pc, Agg("tuple", {"0": it._mk_enum("Option", "Some", [a]), "1": it._mk_enum("Option", "Some", [b])}), "return", None))
+        else:
+            res.append((pc, Agg("tuple", {"0": it._mk_enum("Option", "None", []), "1": it._mk_enum("Option", "None", [])}), "return", None))
+    return res
+
+
+def m_option_unwrap_or(it, args, callee):
+    opt, dflt = args
+    return [(pc, payload if is_some else dflt, "return", None) for pc, is_some, payload in opt_cases(it, opt)]
+
+
+def m_option_is_some(it, args, callee):
+    d = args[0].discr.expr
+    if re.match(r"^\d+$", d):
+        return SV("bool", "true" if d == "1" else "false")
+    return SV("bool", "(= %s 1)" % d)
+
+
+def m_option_copied(it, args, callee):
+    return args[0]
+
+
+def m_value_is_text(it, args, callee):
+    v = args[0]
+    idx = [n for n, _ in it.decls.enums["Value"]].index("Text")
+    d = v.discr.expr
+    if re.match(r"^\d+$", d):
+        return SV("bool", "true" if int(d) == idx else "false")
+    return SV("bool", "(= %s %d)" % (d, idx))
+
+
+def located_inner(it, args, callee):
+    order = it.decls.structs["Located"]
+    return args[0].fields[str(order.index("inner"))]
+
+
+MORE_MODELS = {
+    r"^std::option::Option::<.*>::map::<": m_option_map,
+    r"^std::option::Option::<.*>::unzip$": m_option_unzip,
+    r"^std::option::Option::<.*>::unwrap_or$": m_option_unwrap_or,
+    r"^std::option::Option::<.*>::is_some$": m_option_is_some,
+    r"^std::option::Option::<.*>::copied$": m_option_copied,
+    r"^<quantity::Value as Clone>::clone$": m_identity,
+    r"^<quantity::Value as quantity::QuantityValue>::is_text$": m_value_is_text,
+    r"^<Located<quantity::Value> as Deref>::deref$": located_inner,
+    r"^Located::<quantity::Value>::into_inner$": located_inner,
+}
